@@ -1,4 +1,121 @@
 import TensorModel.Proofs.Kernels
-/-! C11 — property theorems (see Proofs/Kernels.lean for the kernel-level lemmas). -/
+/-!
+  C11 — comparisons: bool result vs 1/0 same-type result; operand order for a scalar on the left.
+  Property theorems only; helper lemmas live in `TensorModel/Proofs/Kernels.lean`
+  (`cell`, `InBuf`, `denseLen` are defined there; see the header of `Props/C06.lean`).
+  A comparison `op` applied to `x`, `y` is the symbolic value `.app2 op x y`; its 1/0 form of the
+  operand type is `.app2 (op ++ ".same") x y`.
+-/
+set_option linter.unusedSimpArgs false
 namespace TM.C11
+open TM
+
+/-- number of cells `NewDense(dt, shape)` allocates -/
+theorem denseLen_def (sh : Shape) : denseLen sh = if sh.isEmpty then 1 else (totalSize sh).toNat := rfl
+
+/-- **Default mode returns a fresh bool tensor.** `StdEng.<Cmp>(a, b)` on the raw path: the result is a
+    newly allocated tensor of element type `"b"` (bool), of `a`'s shape, with row-major default strides,
+    whose cell `i` is `op a[i] b[i]`; operands, every pre-existing buffer and the mask heap are untouched. -/
+theorem engCmpVV_default (st : St) (op : String) (tc : List String) (a b : Dense)
+    (hsh : shapeEq a.shape b.shape = true) (hdt : a.dt = b.dt) (htc : a.dt ∈ tc)
+    (hia : a.requiresIterator = false) (hib : b.requiresIterator = false) (hord : sameOrd a b = true)
+    (hlen : a.win.len = b.win.len) (hcap : a.win.len ≤ b.win.cap) (hsz : a.win.len ≤ denseLen a.shape)
+    (hA : InBuf st a.win.buf a.win.off a.win.len) (hB : InBuf st b.win.buf b.win.off a.win.len) :
+    ∃ out r, engCmpVV st op tc a b {} = .ok out ∧ out.ret = .fresh r ∧ out.reuse = none ∧
+      r.dt = "b" ∧ r.ap.shape = a.shape ∧ r.ap.strides = calcStrides a.shape ∧ r.ap.o.col = false ∧
+      r.win = ⟨st.heap.size, 0, denseLen a.shape, denseLen a.shape⟩ ∧ r.view = false ∧ r.old = none ∧
+      out.st.mheap = st.mheap ∧
+      (∀ i, i < a.win.len → ∃ x y, cell st a.win.buf (a.win.off + i) = some x ∧
+        cell st b.win.buf (b.win.off + i) = some y ∧ cell out.st r.win.buf i = some (.app2 op x y)) ∧
+      (∀ b' k, b' < st.heap.size → cell out.st b' k = cell st b' k) := by
+  obtain ⟨st', h, hm, hv, hfr⟩ := engCmpVV_default' st op tc a b ⟨by simpa using htc, hdt, hsh⟩ hia hib hord
+    hlen hcap hsz hA hB
+  refine ⟨_, _, h, rfl, rfl, rfl, rfl, rfl, rfl, rfl, rfl, rfl, hm, ?_, hfr⟩
+  intro i hi
+  exact ⟨_, _, cell_some_cellD (hA.has i hi), cell_some_cellD (hB.has i hi), hv i hi⟩
+
+/-- **`AsSameType()`**: a fresh tensor of the *operand* type whose cell `i` is the 1/0 form
+    `op.same a[i] b[i]`. -/
+theorem engCmpVV_same (st : St) (op : String) (tc : List String) (a b : Dense)
+    (hsh : shapeEq a.shape b.shape = true) (hdt : a.dt = b.dt) (htc : a.dt ∈ tc)
+    (hia : a.requiresIterator = false) (hib : b.requiresIterator = false) (hord : sameOrd a b = true)
+    (hlen : a.win.len = b.win.len) (hcap : a.win.len ≤ b.win.cap) (hsz : a.win.len = denseLen a.shape)
+    (hA : InBuf st a.win.buf a.win.off a.win.len) (hB : InBuf st b.win.buf b.win.off a.win.len) :
+    ∃ out r, engCmpVV st op tc a b { same := true } = .ok out ∧ out.ret = .fresh r ∧
+      r.dt = a.dt ∧ r.ap.shape = a.shape ∧ r.ap.strides = calcStrides a.shape ∧
+      r.win = ⟨st.heap.size, 0, denseLen a.shape, denseLen a.shape⟩ ∧
+      out.st.mheap = st.mheap ∧
+      (∀ i, i < a.win.len → ∃ x y, cell st a.win.buf (a.win.off + i) = some x ∧
+        cell st b.win.buf (b.win.off + i) = some y ∧
+        cell out.st r.win.buf i = some (.app2 (op ++ ".same") x y)) ∧
+      (∀ b' k, b' < st.heap.size → cell out.st b' k = cell st b' k) := by
+  obtain ⟨st', h, hm, hv, hfr⟩ := engCmpVV_same' st op tc a b ⟨by simpa using htc, hdt, hsh⟩ hia hib hord
+    hlen hcap hsz hA hB
+  refine ⟨_, _, h, rfl, rfl, rfl, rfl, rfl, hm, ?_, hfr⟩
+  intro i hi
+  exact ⟨_, _, cell_some_cellD (hA.has i hi), cell_some_cellD (hB.has i hi), hv i hi⟩
+
+/-- **`UseUnsafe()`**: the 1/0 result of the operand type overwrites the window of `a`, and the
+    returned tensor is `a` itself; nothing else changes. -/
+theorem engCmpVV_unsafe (st : St) (op : String) (tc : List String) (a b : Dense)
+    (hsh : shapeEq a.shape b.shape = true) (hdt : a.dt = b.dt) (htc : a.dt ∈ tc)
+    (hia : a.requiresIterator = false) (hib : b.requiresIterator = false) (hord : sameOrd a b = true)
+    (hne : a.win.buf ≠ b.win.buf) (hlen : a.win.len = b.win.len) (hcap : a.win.len ≤ b.win.cap)
+    (hA : InBuf st a.win.buf a.win.off a.win.len) (hB : InBuf st b.win.buf b.win.off a.win.len) :
+    ∃ out, engCmpVV st op tc a b { unsafe_ := true } = .ok out ∧ out.ret = .a ∧ out.st.mheap = st.mheap ∧
+      (∀ i, i < a.win.len → ∃ x y, cell st a.win.buf (a.win.off + i) = some x ∧
+        cell st b.win.buf (b.win.off + i) = some y ∧
+        cell out.st a.win.buf (a.win.off + i) = some (.app2 (op ++ ".same") x y)) ∧
+      (∀ b' k, (b' ≠ a.win.buf ∨ k < a.win.off ∨ a.win.off + a.win.len ≤ k) → cell out.st b' k = cell st b' k) := by
+  obtain ⟨st', h, w⟩ := engCmpVV_unsafe' st op tc a b ⟨by simpa using htc, hdt, hsh⟩ hia hib hord hne hlen hcap hA hB
+  exact ⟨_, h, rfl, Writes.sem2 (F := fun x y => .app2 (op ++ ".same") x y) w hA.has hB.has⟩
+
+/-- Refusal by type class: an element type outside the comparison's class gives an error value,
+    whatever the options; no state is produced. -/
+theorem engCmpVV_refuses (st : St) (op : String) (tc : List String) (a b : Dense) (o : Opts) (h : a.dt ∉ tc) :
+    engCmpVV st op tc a b o = .error (.err "typeclass a") :=
+  engCmpVV_refuses' st op tc a b o (by simpa using h)
+
+/-- **Operand order with the scalar on the left** (`leftTensor := false`), raw path, default mode: cell
+    `i` of the fresh bool tensor is `op s t[i]` — the scalar is the FIRST argument. -/
+theorem engCmpScalar_scalar_left (st : St) (op : String) (tc : List String) (t : Dense) (sc : ScalarArg)
+    (htc : t.dt ∈ tc) (hdt : t.dt = sc.dt) (hit : t.requiresIterator = false)
+    (hs1 : sc.win.len = 1) (ht1 : t.win.len ≠ 1) (hsz : t.win.len = denseLen t.shape)
+    (hS : InBuf st sc.win.buf sc.win.off 1) (hT : InBuf st t.win.buf t.win.off t.win.len) :
+    ∃ out r s, engCmpScalar st op tc t sc false {} = .ok out ∧ out.ret = .fresh r ∧
+      r.dt = "b" ∧ r.ap.shape = t.shape ∧ r.win.buf = st.heap.size ∧ r.win.off = 0 ∧
+      cell st sc.win.buf sc.win.off = some s ∧ out.st.mheap = st.mheap ∧
+      (∀ i, i < t.win.len → ∃ x, cell st t.win.buf (t.win.off + i) = some x ∧
+        cell out.st r.win.buf i = some (.app2 op s x)) ∧
+      (∀ b' k, b' < st.heap.size → cell out.st b' k = cell st b' k) := by
+  obtain ⟨st', h, hm, hv, hfr⟩ := engCmpScalar_left' st op tc t sc (by simpa using htc) hdt hit hs1 ht1 hsz hS hT
+  refine ⟨_, _, _, h, rfl, rfl, rfl, rfl, rfl, cell_some_cellD (by simpa using hS.has 0 (by omega)), hm, ?_, hfr⟩
+  intro i hi
+  exact ⟨_, cell_some_cellD (hT.has i hi), hv i hi⟩
+
+/-! ## non-vacuity -/
+namespace Ex
+def st : St := { heap := #[#[.src 0 0, .src 0 1, .src 0 2, .src 0 3], #[.src 1 0, .src 1 1, .src 1 2, .src 1 3],
+                           #[.src 2 0]] }
+def ta : Dense := { ap := { shape := [2, 2], strides := [2, 1] }, win := ⟨0, 0, 4, 4⟩, dt := "f64" }
+def tb : Dense := { ap := { shape := [2, 2], strides := [2, 1] }, win := ⟨1, 0, 4, 4⟩, dt := "f64" }
+def sc : ScalarArg := { win := ⟨2, 0, 1, 1⟩, dt := "f64" }
+theorem inA : InBuf st 0 0 4 := ⟨_, rfl, by decide⟩
+theorem inB : InBuf st 1 0 4 := ⟨_, rfl, by decide⟩
+theorem inS : InBuf st 2 0 1 := ⟨_, rfl, by decide⟩
+
+example := engCmpVV_default st "gt" ordTypes ta tb (by decide) rfl (by decide) (by decide) (by decide) (by decide)
+  rfl (by decide) (by decide) inA inB
+example := engCmpVV_same st "gt" ordTypes ta tb (by decide) rfl (by decide) (by decide) (by decide) (by decide)
+  rfl (by decide) (by decide) inA inB
+example := engCmpVV_unsafe st "gt" ordTypes ta tb (by decide) rfl (by decide) (by decide) (by decide) (by decide)
+  (by decide) rfl (by decide) inA inB
+example := engCmpVV_refuses st "gt" ordTypes { ta with dt := "c128" } tb {} (by decide)
+example := engCmpScalar_scalar_left st "gt" ordTypes ta sc (by decide) rfl (by decide) rfl (by decide) (by decide)
+  inS inA
+/-- a concrete run: `Gt(2, t)` compares `gt 2 t[i]`, not `gt t[i] 2` -/
+example : ∃ out, engCmpScalar st "gt" ordTypes ta sc false {} = .ok out ∧
+    cell out.st 3 1 = some (.app2 "gt" (.src 2 0) (.src 0 1)) := ⟨_, rfl, rfl⟩
+end Ex
+
 end TM.C11
